@@ -481,6 +481,19 @@ class ScriptAction:
                 if new not in ups:
                     dev.set_upstream(ups + [new])
                     out = 'added'
+            elif kind == 'detach':
+                # a station taken out of the line: whatever fed it (a gate, a junction) keeps its place in its own
+                # upstream's list and leads nowhere for the time being
+                w.saved_up = getattr(w, 'saved_up', {})
+                if dev.upstream:
+                    w.saved_up[op['target']] = dev.upstream
+                    dev.set_upstream([])
+                    out = 'detached'
+            elif kind == 'reattach':
+                ups = getattr(w, 'saved_up', {}).pop(op['target'], None)
+                if ups:
+                    dev.set_upstream(ups)
+                    out = 'reattached'
             elif kind == 'rewire_many':
                 # several connections added by one call (a merge point wired up while the line is running)
                 ups = dev.upstream
